@@ -9,6 +9,8 @@ Mirrors, as written (after the repairs `fixes/C13-*.patch`):
   `Bus.dbus_RequestName`, `Bus.dbus_ReleaseName`, `Bus.dbus_GetNameOwner`,
   `Bus.dbus_ListQueuedOwners`, with the signals each sends (`sendSignal` NameAcquired /
   NameLost, `broadcastSignal` NameOwnerChanged) and the value each returns;
+* `txdbus/bus.py`  `Bus.sendMessage`'s destination resolution (`routerLookup`) and `dbus_GetNameOwner`
+  for any name, unique names included (`getNameOwnerOf`) - extension 2026-09-30;
 * `txdbus/client.py` `DBusClientConnection.requestBusName` (flag word, `on_result`);
 * `txdbus/error.py` `FailedToAcquireName` (class of the reason text).
 
@@ -21,8 +23,9 @@ State of the Python objects that is modelled:
 
 A connection is identified by the number `n` of its unique name `":1.n"`.  Well-known names are
 abstract (`Name := Nat`, the harness numbers them); the model's domain is *valid* well-known
-names (the validation at the top of `dbus_RequestName` is property C18's subject) and
-`GetNameOwner` of well-known names.  Any number of connections and names, unbounded histories.
+names (the validation at the top of `dbus_RequestName` is property C18's subject); destinations of
+messages and of `GetNameOwner` are `Dest` (unique / other colon name / well-known).  Any number of
+connections and names, unbounded histories.
 
 Python `dict` = association list with Python's semantics: `d[k] = v` overwrites in place or
 appends, iteration in insertion order, `del d[k]`.  `Dict.erase` removes every pair with the key;
@@ -284,6 +287,77 @@ def State.flag (s : State) (c : Conn) (n : Name) : Option Bool :=
 
 /-- The owner of a name, if any. -/
 def State.owner (s : State) (n : Name) : Option Conn := (s.queue n).head?
+
+/-! ## The router's reading of the table (extension 2026-09-30: the seam with property C14)
+
+`Bus.sendMessage(msg)` for a message whose destination is set and non-empty (the caller,
+`Bus.messageReceived`, has already excluded `''` and `'org.freedesktop.DBus'`):
+
+    if msg.destination[0] == ':':
+        p = self.clients.get(msg.destination, None)
+    else:
+        p = self.busNames.get(msg.destination, None)
+        if p:
+            p = p[0]
+    if p:
+        p.sendMessage(msg)
+    else:
+        log.msg('Invalid bus name in msg.destination: ' + msg.destination)
+
+A connection object is truthy; `None` and `[]` are not. -/
+
+/-- The connection `Bus.sendMessage` writes a message for destination `d` to; `none`: logged and dropped. -/
+def routerLookup (s : State) : Dest → Option Conn
+  | .unique k =>                                  -- self.clients.get(':1.k')
+    match Dict.get? s.clients k with
+    | some _ => some k
+    | none => none
+  | .foreign => none                              -- starts with ':' but is no key of self.clients
+  | .wellKnown n =>
+    match Dict.get? s.busNames n with
+    | none => none                                -- p = None
+    | some [] => none                             -- `if p:` is false for [] (twice)
+    | some (o :: _) => some o                     -- p = p[0]
+
+/-- `Bus.dbus_GetNameOwner(busName)` for ANY name:
+`if busName.startswith(':'): conn = self.clients.get(busName)` else the head of the queue;
+`conn is None` -> NameHasNoOwner; `return conn.uniqueName`.  (`dbus_GetConnectionUnixUser` finds its
+connection with the same lines.) -/
+def getNameOwnerOf (s : State) (c : Conn) : Dest → Result
+  | .wellKnown n => getNameOwner s c n
+  | .unique k =>
+    match Dict.get? s.clients k with
+    | none => .ok (s, [.replyNoOwner c])
+    | some _ => .ok (s, [.replyOwner c k])        -- conn.uniqueName is the key it is registered under
+  | .foreign => .ok (s, [.replyNoOwner c])
+
+/-- What one step of a history with router lookups shows. -/
+inductive HOut where
+  | events (evs : List Event)          -- what the bus sends because of a name operation / query
+  | delivered (to : Option Conn)       -- the one connection the addressed message is written to; none: dropped
+  deriving DecidableEq, Repr
+
+/-- Sending an addressed message and asking for an owner leave the tables alone (`Op.other`). -/
+def stepL (s : State) : HStep → Except Err (State × HOut)
+  | .op o =>
+    match step s o with
+    | .error e => .error e
+    | .ok (s', evs) => .ok (s', .events evs)
+  | .send _ d => .ok (s, .delivered (routerLookup s d))
+  | .ask c d =>
+    match getNameOwnerOf s c d with
+    | .error e => .error e
+    | .ok (s', evs) => .ok (s', .events evs)
+
+def runL (s : State) : List HStep → Except Err (State × List HOut)
+  | [] => .ok (s, [])
+  | h :: hs =>
+    match stepL s h with
+    | .error e => .error e
+    | .ok (s1, o) =>
+      match runL s1 hs with
+      | .error e => .error e
+      | .ok (s2, os) => .ok (s2, o :: os)
 
 /-! ## Client side: `DBusClientConnection.requestBusName` -/
 
